@@ -4,7 +4,7 @@ from __future__ import annotations
 import itertools
 
 import lang
-from chartgen import outcome, section, wide_chars
+from chartgen import keyword_like_words, outcome, section, wide_chars
 from common import cps, rng
 from extract_lang import FIELDS
 
@@ -19,15 +19,55 @@ def song_chart(body):
     return "\n".join(lines) + "\n"
 
 
-def observe(cid, body):
-    rec = {"id": cid, "props": ["C10"], "kind": "song", "lines": [cps("  " + b) for b in body], "text": body, "raised": "", "obs": {}}
-    kind, val = outcome(song_chart(body))
+ITERABLES = ["list", "tuple", "iterator", "generator", "islice", "map", "file-object", "deque", "dict-keys"]
+
+
+def _as_iterable(lines, how):
+    """The same lines as another kind of Iterable[str] (the section-level entry points are typed Iterable[str])."""
+    import collections
+    import io
+    import itertools
+    if how == "list":
+        return list(lines)
+    if how == "tuple":
+        return tuple(lines)
+    if how == "iterator":
+        return iter(list(lines))
+    if how == "generator":
+        return (ln for ln in lines)
+    if how == "islice":
+        return itertools.islice(["x"] + list(lines) + ["y"], 1, 1 + len(lines))
+    if how == "map":
+        return map(str, lines)
+    if how == "file-object":
+        return (ln.rstrip("\n") for ln in io.StringIO("".join(ln + "\n" for ln in lines)))
+    if how == "deque":
+        return collections.deque(lines)
+    return dict.fromkeys(lines).keys() if len(set(lines)) == len(lines) else list(lines)
+
+
+def observe(cid, body, entry="file"):
+    """entry: "file" (the whole chart through Chart.from_file) or the name of an iterable kind (the [Song] body handed to
+    the public section-level entry point Metadata.from_chart_lines as that kind of Iterable[str])."""
+    rec = {"id": cid, "props": ["C10"], "kind": "song", "lines": [cps("  " + b) for b in body], "text": body, "raised": "", "obs": {},
+           "entry": entry}
     for f in FIELDS:
         rec["obs"]["f_" + f] = ["none"]
-    if kind == "raise":
-        rec["raised"] = type(val).__name__
-        return rec
-    m = val.metadata
+    if entry == "file":
+        kind, val = outcome(song_chart(body))
+        if kind == "raise":
+            rec["raised"] = type(val).__name__
+            return rec
+        m = val.metadata
+    else:
+        from common import load_impl
+        load_impl()
+        from chartparse.metadata import Metadata
+        try:
+            m = Metadata.from_chart_lines(_as_iterable(["  " + b for b in body], entry))
+        except Exception as e:  # noqa: BLE001
+            rec["raised"] = type(e).__name__
+            return rec
     for f in FIELDS:
         v = getattr(m, f)
         if v is None:
@@ -110,10 +150,18 @@ def run(ctx):
     for c in wide_chars(r, ctx.pick(30, 1500)):
         f1, f2 = r.sample(STR_FIELDS, 2)
         bodies.append(["Resolution = 192", f'{PASCAL[f1]} = "{c}"', f'{PASCAL[f2]} = "a{c}b{c}"'])
+    for w in keyword_like_words()[:: ctx.pick(3, 1)]:
+        f1 = r.choice(STR_FIELDS)
+        bodies.append(["Resolution = 192", f'{PASCAL[f1]} = "{w}"'])
     for k, b in enumerate(bodies):
         recs.append(observe(f"s{k}", b))
         ctx.evaluations += 1
         ctx.distinct(b)
+        if k % 4 == 0 and len(b) < 60:
+            # the same body through the section-level entry point, as each kind of Iterable[str] in turn
+            how = ITERABLES[(k // 4) % len(ITERABLES)]
+            recs.append(observe(f"s{k}-{how}", b, entry=how))
+            ctx.evaluations += 1
     ctx.sample({"origin": "song section", "body": bodies[-1], "observed": {k: v for k, v in recs[-1]["obs"].items() if v != ["none"]}})
     by_id = {x["id"]: x for x in recs}
     rej = ctx.validate(recs)
@@ -122,7 +170,8 @@ def run(ctx):
     for rid, p, clause in rej:
         rec = by_id[rid]
         if rec["kind"] != "lang":
-            ctx.violation(clause, {"kind": "song", "body": rec["text"], "raised": rec["raised"], "obs": rec["obs"]}, key=clause)
+            ctx.violation(clause, {"kind": "song", "body": rec["text"], "raised": rec["raised"], "obs": rec["obs"], "entry": rec.get("entry", "file")},
+                          key=clause + ("" if rec.get("entry", "file") == "file" else "|section-level-entry-point"))
     ctx.exhaustive = True
     ctx.assumptions += [
         "canonical string field: Name = \"<non-empty text>\" (one surrounding pair of quotes); canonical numeric field: ASCII digits; Player2 = bass | rhythm",
@@ -131,6 +180,6 @@ def run(ctx):
 
 
 def replay(ctx, obj):
-    rec = observe("replay", obj["body"])
+    rec = observe("replay", obj["body"], entry=obj.get("entry", "file"))
     for rid, p, clause in ctx.validate([rec]):
         ctx.violation(clause, {"kind": "song", "body": obj["body"], "raised": rec["raised"], "obs": rec["obs"]})
